@@ -4,14 +4,16 @@
 // widths 8, 16 and 160, chosen hashed keys (for the small widths raw keys are found by search so that any bit pattern can
 // be targeted: long shared prefixes, keys adjacent to the synthetic subtree borders, insert-then-delete), batches below
 // and above the 16-operation parallel threshold, sequential and parallel commits; dumps the persisted tree and
-//   (a) writes it with the history into cases_*.v  (Coq: model tree = implementation tree; canonical; leaves = final map),
-//   (b) checks in Go, with the real SHA-256, that every stored parent value is the hash of its children as stored and that
-//       the returned root is the root node's value (a stale or skipped rehash is a direct violation),
-//   (c) replays a re-batched / re-ordered history with the same final content and compares roots (direct violation if different).
+//
+//	(a) writes it with the history into cases_*.v  (Coq: model tree = implementation tree; canonical; leaves = final map),
+//	(b) checks in Go, with the real SHA-256, that every stored parent value is the hash of its children as stored and that
+//	    the returned root is the root node's value (a stale or skipped rehash is a direct violation),
+//	(c) replays a re-batched / re-ordered history with the same final content and compares roots (direct violation if different).
 package main
 
 import (
 	"bytes"
+	"crypto/sha256"
 	"flag"
 	"fmt"
 	"math/big"
@@ -375,7 +377,16 @@ func storeHistories(r *sim.Rng, n int, cw *sim.CaseWriter, outDir string) {
 						}
 					} else {
 						h.val = r.Bytes(1 + r.Intn(6))
-						if r.Chance(22) {
+						if r.Chance(18) {
+							// a value of exactly the size of a hash (and, half of the time, the hash of a value this key held before or
+							// may hold later): what the tree commits to must still be the hash of the value, not the value
+							w := []byte(fmt.Sprintf("w-%06d-%026d", id%7, id%5))[:32]
+							if r.Bool() {
+								hw := sha256.Sum256(w)
+								w = hw[:]
+							}
+							h.val = w
+						} else if r.Chance(22) {
 							// a key with an EMPTY value (the state machine stores such keys: committee / delegate membership entries)
 							h.val = []byte{}
 							if r.Bool() {
